@@ -650,6 +650,72 @@ def self_test():
     return missing
 
 
+# ==================================================================================================
+# order independence: what happens to a stanza does not depend on which stanza went through the same stack before it
+# (without the encryption layers nothing in the protocol layers is meant to carry over from one stanza to the next,
+# except the registry entry of a request, and requests are not part of this alphabet)
+# ==================================================================================================
+def _pair_input(kind, mask, vector):
+    if kind.scenario is not None or kind.request is not None:
+        return None
+    if kind.direction == "out":
+        case = S.build_case(kind.shape, mask, vector)
+        if case.error is not None or case.entity is None:
+            return None
+        return case.entity
+    if kind.gen is not None:
+        return kind.gen(vector)[0]
+    return S.build_case(kind.shape, mask, vector).node
+
+
+def _pair_observe(st, kind, inp):
+    exc = st.send(inp) if kind.direction == "out" else st.inject(inp)
+    sent, got = st.take()
+
+    def cn(x):
+        if isinstance(x, ProtocolTreeNode):
+            return S.canon(x)
+        try:
+            return (type(x).__name__, S.canon(x.toProtocolTreeNode()))
+        except Exception as e:
+            return (type(x).__name__, "unserialisable:" + type(e).__name__)
+    return (type(exc).__name__ if exc is not None else None, tuple(cn(n) for n in sent), tuple(cn(g) for g in got))
+
+
+def run_pairs(item):
+    cfgkey, name_a, names_b = item
+    cfg = P.Config.from_key(cfgkey)
+    P.patch_clocks()
+    ka = KIND[name_a]
+    raw = []
+    n = 0
+    for name_b in names_b:
+        kb = KIND[name_b]
+        for (va, vb) in ((0, 0), (1, 2)):
+            import copy
+            with P.ProtoStack(cfg) as st:
+                a, b = _pair_input(ka, 0, va), _pair_input(kb, 0, vb)
+                if a is None or b is None:
+                    break
+                try:
+                    b2 = copy.deepcopy(b)      # the very same input (some constructors draw random defaults)
+                except Exception:
+                    break
+                _pair_observe(st, ka, a)
+                after = _pair_observe(st, kb, b)
+            with P.ProtoStack(cfg) as st:
+                fresh = _pair_observe(st, kb, b2)
+            n += 1
+            if after != fresh:
+                raw.append(("C06:%s:depends-on-earlier-stanza" % name_b,
+                            "%s is handled differently after %s went through the same stack than on a fresh stack (configuration %s)"
+                            % (name_b, name_a, cfgkey),
+                            {"pair": [name_a, name_b], "config": cfgkey},
+                            {"after_earlier": repr(after)[:500], "on_fresh_stack": repr(fresh)[:500]}))
+                break
+    return raw, n
+
+
 def run(ctx):
     thorough = not ctx.quick
     P.prepare()                      # template store provisioned once; forked workers inherit it
@@ -683,6 +749,28 @@ def run(ctx):
         nontrivial |= nt
         outcomes |= oc
     ctx.add_violations(aggregate(raw))
+
+    # ordered pairs on one stack, without the encryption layers: every kind after every kind (thorough) / after one
+    # representative kind per owner and direction (quick)
+    plain = [k for k in KINDS if k.scenario is None and k.request is None]
+    if thorough:
+        firsts = [k.name for k in plain]
+    else:
+        seen, firsts = set(), []
+        for k in plain:
+            key = (k.direction, k.module, getattr(k, "down", None))
+            if key not in seen:
+                seen.add(key)
+                firsts.append(k.name)
+    pair_cfgs = [c.key for c in P.CONFIGS if not c.enc and all(getattr(c, m) for m in P.MODULES)]
+    pitems = [(ck, a, [k.name for k in plain]) for ck in pair_cfgs for a in firsts]
+    praw, npairs = [], 0
+    for r, n in ctx.pmap(run_pairs, shuffled(pitems, ctx.seed, "c06-pairs")):
+        praw.extend(r)
+        npairs += n
+    ctx.add_violations(sorted(praw, key=lambda v: v[0]))
+    evals += npairs
+    ctx.coverage["ordered_pairs_on_one_stack"] = npairs
 
     per_dir = {"out": sum(1 for k in KINDS if k.direction == "out"), "in": sum(1 for k in KINDS if k.direction == "in")}
     ctx.sample({"kind": "TextMessage.out", "configs": P.CONFIG_KEYS[:3] + ["..."] + P.CONFIG_KEYS[-1:],
@@ -726,6 +814,8 @@ def run(ctx):
 def replay(ctx, case):
     """re-run the recorded (kind, optional parts, vector) in all 32 configurations, so that the configuration
     class of the signature is recomputed the same way as in run()"""
+    if case.get("pair"):
+        return run_pairs((case["config"], case["pair"][0], [case["pair"][1]]))[0]
     if case.get("assembly"):
         bad, _ = P.assembly_preflight(passes=2)
         return [("C06:assembly:%s" % what, "layer set of %s (assembly no. %d) differs from the model" % (k, n), case, d)
